@@ -19,7 +19,7 @@ TRUSTED = ['Coq 8.16.1 kernel + vm_compute', 'harness/p02.py oracle (tableschema
 ASSUMES = ['conforming typed input', 'well-typed parameters (domain of the property)']
 
 KINDS = ['restricted_set_type', 'restricted_delete', 'restricted_rename', 'add_field', 'add_computed', 'select', 'delete', 'rename', 'find_replace', 'set_type', 'validate', 'filter', 'sort', 'dedup',
-         'unpivot', 'concat', 'duplicate', 'join', 'join_keep', 'join_self', 'delete_res', 'update_resource', 'update_schema', 'update_package', 'row_fn']
+         'unpivot', 'concat', 'concat_pk', 'duplicate', 'join', 'join_keep', 'join_fmt', 'join_self', 'delete_res', 'update_resource', 'update_schema', 'update_package', 'row_fn']
 
 
 def base_rows(i, n):
@@ -141,6 +141,26 @@ def build(case):
             nm = fresh('cat')
             steps.append(DF.concatenate({'id': [], 'grp': []}, target={'name': nm}))
             res = [{'name': nm, 'fields': ['id', 'grp']}]
+        elif t == 'concat_pk' and len(res) >= 2 and allhave('id') and allhave('grp') and idint:
+            # the key field is renamed by the mapping: the target's primary key must name the new field
+            nm, key = fresh('cat'), fresh('key')
+            steps.append(DF.set_primary_key(['id']))
+            steps.append(DF.concatenate({key: ['id'], 'grp': []} if a % 2 else {'grp': [], key: ['id']}, target={'name': nm}))
+            res = [{'name': nm, 'fields': [key, 'grp']}]
+        elif t == 'join_fmt' and idint and len(res) >= 2 and all(f in res[0]['fields'] for f in ('grp', 'id')) \
+                and all(f in res[1]['fields'] for f in ('txt', 'id')):
+            # full-outer join on composite keys whose field names sort differently on the two sides: the key values of
+            # unmatched source rows are written back under the target's key fields, position by position
+            nm = fresh('jf')
+            skey, tkey = [('{grp}/{id}', '{txt}/{id}'), ('{id}-{grp}', ['id', 'txt']), (['grp', 'id'], ['txt', 'id']),
+                          ('{grp}:{id}:{grp}', '{txt}:{id}:{txt}')][a]
+            steps.append(DF.join(res[0]['name'], skey, res[1]['name'], tkey, {nm: {'name': 'id', 'aggregate': 'count'}},
+                                 mode='full-outer', source_delete=True))
+            # the rows added for unmatched source keys carry the key fields and the aggregate only: these are the
+            # fields later steps may rely on
+            res[1]['fields'] = ['txt', 'id', nm]
+            res[1]['idtype'] = 'sparse'
+            res.pop(0)
         elif t == 'duplicate':
             nm = fresh('dup')
             steps.append(DF.duplicate(source=first['name'], target_name=nm, duplicate_to_end=bool(a % 2)))
@@ -222,6 +242,10 @@ def run_impl(case):
             fnames = [f['name'] for f in fields]
             if len(set(fnames)) != len(fnames):
                 problems.append('resource %s declares a field twice: %r' % (d['name'], fnames))
+            pkey = d['schema'].get('primaryKey') or []
+            undeclared = [k for k in ([pkey] if isinstance(pkey, str) else pkey) if k not in fnames]
+            if undeclared:
+                problems.append('resource %s: primaryKey names undeclared fields %r (fields %r)' % (d['name'], undeclared, fnames))
             mv = d['schema'].get('missingValues', [''])
             fobj = dict((f['name'], Field(f, missing_values=mv)) for f in fields)
             for r in rs:
@@ -289,7 +313,7 @@ def coq_term(case, out):
         rows = clist([clist([cpair(cstr(k), 'VNull') for k in keys]) for keys in s_['rowkeys']])
         rs.append('{| r_name := %s; r_path := []; r_fields := %s; r_pk := []; r_rows := %s |}' % (
             cstr(s_['name']), clist([cpair(cstr(f), '[]') for f in s_['fields']]), rows))
-    ok = not out['problems'] or all('not valid for field' in p or 'Data Package' in p for p in out['problems'])
+    ok = not out['problems'] or all('not valid for field' in p or 'Data Package' in p or 'primaryKey' in p for p in out['problems'])
     return 'Bool.eqb (pkg_wf_b %s) %s' % (clist(rs), cbool(ok and len(set(out['names'])) == len(out['names'])))
 
 
